@@ -21,7 +21,7 @@ ASSUMPTIONS = ['loop ids used in generated paths cannot be read as segment ids o
                'values written by set() contain no delimiter characters; refdes without an element index are not used for set()',
                'map element ids with a zero-padded component index (CLM05-01) are only required to re-parse to an equal path, not to print identically']
 REQUIRED_COUNTERS = ['A:paths', 'A:expected-reject', 'A:map-node-paths', 'B:histories', 'B:sets', 'B:gets-compared', 'B:foreign-refused']
-MIN_CASES = {'quick': 20000, 'thorough': 200000}
+MIN_CASES = {'quick': 20000, 'thorough': 500000}
 
 LOOPS = ['2000A', 'ISA_LOOP', '2300', 'HEADER', '1000B', '2010AA', '2400', 'GS_LOOP']
 SEGS = [None, 'NM1', 'N3', 'CLM', 'HL', 'K3', 'ST', 'B2A', 'N1']
@@ -122,6 +122,8 @@ def part_a(ctx):
         for depth in depths:
             if depth < 3:
                 seqs = itertools.product(LOOPS[:6], repeat=depth)
+            elif not ctx.quick:
+                seqs = itertools.product(LOOPS[:4], repeat=3)
             else:
                 seqs = [tuple(LOOPS[:3]), tuple(LOOPS[3:6]), tuple(LOOPS[5:8]), ('2000A', '2000A', '2000A')]
             for ll in seqs:
@@ -308,7 +310,7 @@ def rand_history(ctx, rng, hid):
 
 
 def part_b(ctx):
-    nh = 1500 if ctx.quick else 20000
+    nh = 1500 if ctx.quick else 400000
     nh = max(1, nh // ctx.nshards)
     sigs = 0
     for i in range(nh):
